@@ -597,6 +597,12 @@ def run(ctx):
     d = stats["dist"]
     kinds = d.get("by_kind", {})
     total = max(1, sum(kinds.values()))
+    if not ctx.replay:
+        # every broadcast path must have met a full send queue in this run (coverage note, not a verdict)
+        det = d.get("slow_consumer_detached", {})
+        for need in ("pub -> grp", "pub -> me", "pub -> p2p", "note -> grp", "set -> me", "del -> grp"):
+            if not det.get(need):
+                ctx.notes.append("slow consumers: no stuck connection was detached by '%s' in this run" % need)
     ctx.coverage.update({
         "split": {
             "proof_half": "obligations/discharged below count the theorems of coq/Props/PropC13.v (modelled panic sites, reply totality, id echo, error-not-silence at session/hub routing level); model tied to the code by the extracted-model correspondence run (model_correspondence)",
